@@ -431,6 +431,8 @@ class Tr:
     pending = []          # definitions generated on demand, to be emitted before the kernel being translated
     in_progress = set()   # declaration ids being translated (recursion is refused)
     cfg = {}
+    nttp_values = False   # configuration key "nttp_values": integer non-type template parameters of an instantiation are their substituted literals
+    lazy_logic = False    # configuration key "lazy_short_circuit": `a && b` / `a || b` with a checked right operand (as with "structs")
 
     def __init__(self, records, calls, members):
         self.binds = []       # list of (kind, name, rhs) ; kind in {"do", "let"}
@@ -606,6 +608,14 @@ class Tr:
                 self.binds.append(("do", t, f"{self.kernel_calls[name]} " + " ".join(args)))
                 return t
             raise Refuse(f"call to {name}")
+        if k == "SubstNonTypeTemplateParmExpr" and Tr.nttp_values:
+            # configuration key "nttp_values": a non-type template parameter of integer type inside an INSTANTIATION is the
+            # literal clang substituted for it (the kernel is selected by `template_args`, so the value is part of its identity)
+            if (len(inner) == 2 and inner[0].get("kind") == "NonTypeTemplateParmDecl"
+                    and inner[1].get("kind") in ("IntegerLiteral", "CXXBoolLiteralExpr", "CharacterLiteral")):
+                ity_of(n)
+                return self.expr(inner[1])
+            raise Refuse("non-type template parameter that is not substituted by a literal")
         raise Refuse(f"expression kind {k}")
 
     # ---- configuration key "structs": plain records carried field by field, calls INLINED from the callee's definition
@@ -1060,7 +1070,7 @@ class Tr:
         if op in ("&&", "||"):
             a = self.expr(l)
             b_term, b_mon = self.branch(r)
-            if b_mon is not None and Tr.structs:
+            if b_mon is not None and (Tr.structs or Tr.lazy_logic):
                 # the right operand can be undefined: it is evaluated only when the left one does not decide
                 t = self.fresh()
                 self.binds.append(("do", t, f"(if {a} then {b_mon} else Some false)" if op == "&&" else f"(if {a} then Some true else {b_mon})"))
@@ -1412,6 +1422,8 @@ def main():
     Tr.cfg = cfg
     Tr.auto_callees = bool(cfg.get("auto_callees"))
     Tr.structs = cfg.get("structs", {})
+    Tr.lazy_logic = bool(cfg.get("lazy_short_circuit"))
+    Tr.nttp_values = bool(cfg.get("nttp_values"))
     Forest.tu_text = cfg["tu"]
     Forest.use_clang_constants = bool(cfg.get("clang_constants"))
     try:
